@@ -443,7 +443,14 @@ func procBody(p *Proc, fn func() error, done chan struct{}) {
 
 const envPool = 8
 
-func envName(k int) string { return "VFSIM_" + strconv.Itoa(k) }
+// Odd-numbered variables have lower-case names, and their upper-case twins - which belong to nobody - always hold
+// a value that would be valid for every type: a library must read the variables it was told to read, nothing else.
+func envName(k int) string {
+	if k%2 == 1 {
+		return "vfsim_" + strconv.Itoa(k)
+	}
+	return "VFSIM_" + strconv.Itoa(k)
+}
 
 // EnvState is the content of the owned variables: nil = unset.
 type EnvState [envPool]*string
@@ -458,6 +465,9 @@ func (e EnvState) Get(k int) (string, bool) {
 }
 
 func (e EnvState) Apply() {
+	for k := 1; k < envPool; k += 2 {
+		os.Setenv("VFSIM_"+strconv.Itoa(k), "1")
+	}
 	for k := 0; k < envPool; k++ {
 		if e[k] == nil {
 			os.Unsetenv(envName(k))
